@@ -64,7 +64,7 @@ func evalPodNames(w *Workload) []string {
 		}
 		var res []string
 		for i := 0; i < n; i++ {
-			res = append(res, fmt.Sprintf("%s/%s-x%dz", w.Ns, w.Name, i))
+			res = append(res, w.Ns+"/"+ownedPodName(w, i))
 		}
 		return res
 	}
